@@ -341,7 +341,7 @@ func c17Run(c *engine.Ctx) {
 									c.Violation(key, "json-position", map[string]any{"kind": kind, "nl": nl, "size": size, "pre": pre, "p": p, "repl": int(repl), "transport": ti, "why": msg, "stderr": head(r.Stderr, 300)})
 								}
 								// the same stream read token by token (--stream): the same offending byte
-								if want >= 0 && (ti < 2 || !quick) && (p%4 == 0 || !quick) {
+								if want >= 0 && (ti < 2 || !quick) && (p%8 == 0 || !quick) {
 									c.Eval()
 									rs := c17RunInput([]string{"--stream", "-c", "."}, text, tr, dir, c.Shard)
 									smsg := ""
@@ -416,6 +416,76 @@ func c17Run(c *engine.Ctx) {
 		}
 	}
 	c.Sample(map[string]any{"modes": "default, --stream, -s, --slurpfile on truncated documents"})
+
+	// YAML: the parser is the YAML library's, so there is no independent position oracle; but replacing ASCII filler
+	// characters by multi-byte characters of the same display width must not move the reported line or the caret
+	c.Sub("yaml-metamorphic")
+	if c.MineIdx(0) {
+		templates := []string{"a: \"F\"\nb: F: c: d\n", "k: F\nb: [1, 2\nc: 3\n", "F: 1\nb: {x: 1\nc: 2\n", "- F\n- [F\n- x: y: z\n", "a: F\n  b: 1\n c: 2\n", "a: 'F\nb: 1\n", "\"F\": 1\n\tb: 2\n",
+			"a: F\n? [x\n", "a: &x F\nb: *nosuch\n", "# F\na: [F, F\nb: ]\n", "F F: [\n", "a: |\n  F\n b: [1\n", "a: F\n---\nb: F: F: F\n", "a: F\nb: F\nc: F\nd: {F\n"}
+		fillers := []func(n int) string{
+			func(n int) string { return strings.Repeat("x", n) },
+			func(n int) string { return strings.Repeat("é", n) },
+			func(n int) string { return strings.Repeat("ж", n) },
+			func(n int) string { return strings.Repeat("\u2020", n) },
+			func(n int) string {
+				return strings.Repeat("xé\u2020", (n+2)/3)[:0] + string([]rune(strings.Repeat("xé\u2020", (n+2)/3))[:n])
+			},
+		}
+		for ti, tmpl := range templates {
+			for _, n := range []int{1, 4, 9, 30, 70} {
+				var base c17Report
+				var baseMsg string
+				for fi, fill := range fillers {
+					doc := strings.ReplaceAll(tmpl, "F", fill(n))
+					c.Eval()
+					r := RunCLIString([]string{"--yaml-input", "-c", "."}, doc)
+					if r.Status == 0 {
+						c.Outcome("yaml template accepted")
+						break
+					}
+					rep := c17ParseReport(r.Stderr)
+					msg := r.Stderr[strings.LastIndex(strings.TrimRight(r.Stderr, "\n"), "^")+1:]
+					if !rep.ok {
+						c.Violation(fmt.Sprintf("yaml template %d n=%d filler %d", ti, n, fi), "yaml-position", map[string]any{"doc": doc, "why": "no position report: " + rep.why, "stderr": head(r.Stderr, 300)})
+						break
+					}
+					if fi == 0 {
+						base, baseMsg = rep, msg
+						c.DistinctN(1)
+						c.Outcome(fmt.Sprintf("yaml error on line %d", min(rep.line, 4)))
+						continue
+					}
+					// long lines are cut to a window measured in bytes, so only short lines keep the caret column;
+					// what always stays is the character the caret stands under
+					under := func(r c17Report) string {
+						w := 0
+						for _, ch := range r.excerpt {
+							if w >= r.caret {
+								if ch >= 0x80 {
+									return "a filler character"
+								}
+								return string(ch)
+							}
+							w += runewidth.RuneWidth(ch)
+						}
+						return "end of line"
+					}
+					short := true
+					for _, ln := range strings.Split(doc, "\n") {
+						if len(ln) > 40 {
+							short = false
+						}
+					}
+					if rep.line != base.line || short && rep.caret != base.caret || msg != baseMsg || under(rep) != under(base) && !(under(base) == "x" && under(rep) == "a filler character") {
+						c.Violation(fmt.Sprintf("yaml template %d n=%d filler %d", ti, n, fi), "yaml-position", map[string]any{"doc": doc,
+							"why": fmt.Sprintf("with ASCII filler the error is reported on line %d, caret column %d under %q (%s); with a multi-byte filler of the same width on line %d, caret column %d under %q (%s)", base.line, base.caret, under(base), strings.TrimSpace(baseMsg), rep.line, rep.caret, under(rep), strings.TrimSpace(msg)), "stderr": head(r.Stderr, 300)})
+					}
+				}
+			}
+		}
+	}
+	c.Sample(map[string]any{"template": "a: \"F\"\nb: F: c: d", "fillers": "x, é, ж, †, mixed; 1, 4, 9, 30, 70 characters", "oracle": "same line, same message, the caret under the same character (and in the same column on short lines) as with the ASCII filler"})
 
 	c.Sub("query")
 	c17Queries(c)
@@ -512,6 +582,9 @@ func c17Replay(v *engine.Violation) (bool, string) {
 	WorkDir()
 	defer CleanupWorkDir()
 	d := v.Detail
+	if v.Check == "yaml-metamorphic" {
+		return true, fmt.Sprint(d["why"])
+	}
 	if v.Check == "json" {
 		kind, nl, size, pre, p := d["kind"].(string), d["nl"].(string), int(d["size"].(float64)), int(d["pre"].(float64)), int(d["p"].(float64))
 		var prefix strings.Builder
@@ -544,7 +617,7 @@ func init() {
 	engine.Register(&engine.Check{
 		ID:    "C17",
 		Level: "fault_enumeration",
-		Rule: "well-formed multi-line documents of 3 kinds (one scalar per line; nested objects with multi-byte and double-width characters; lines longer than the excerpt window) x sizes {40 B, 500 B, 4 KiB, 16 KiB-1/+0/+1, 40 KiB, thorough 70 KiB} x line terminators {LF, CRLF, CR} x 0..3 preceding valid documents (3/9/14 KB, so the 16 KiB window reset falls before, inside and after the faulty document) are corrupted by replacing ONE byte (by ? and by 0xFF) at EVERY byte for small documents and at every byte within +-70 of each multiple of 4096 and 16384, +-6 of each multiple of 512 and the first/last 80 bytes otherwise; each corrupted stream goes through 8 transports (regular file; pipe delivered whole and in chunks of 1, 7, 512, 4096, 16384, 16385), as values and again token by token under --stream (quick: a quarter of the positions, file and whole-pipe transports). " +
+		Rule: "well-formed multi-line documents of 3 kinds (one scalar per line; nested objects with multi-byte and double-width characters; lines longer than the excerpt window) x sizes {40 B, 500 B, 4 KiB, 16 KiB-1/+0/+1, 40 KiB, thorough 70 KiB} x line terminators {LF, CRLF, CR} x 0..3 preceding valid documents (3/9/14 KB, so the 16 KiB window reset falls before, inside and after the faulty document) are corrupted by replacing ONE byte (by ? and by 0xFF) at EVERY byte for small documents and at every byte within +-70 of each multiple of 4096 and 16384, +-6 of each multiple of 512 and the first/last 80 bytes otherwise; each corrupted stream goes through 8 transports (regular file; pipe delivered whole and in chunks of 1, 7, 512, 4096, 16384, 16385), as values and again token by token under --stream (quick: an eighth of the positions, file and whole-pipe transports). " +
 			"The absolute offset of the offending byte comes from encoding/json run by the harness on the same bytes; the reported line must be its 1-based line (LF, CRLF, CR), the quoted text a piece of that line covering it, and the caret under it in terminal columns (go-runewidth). Truncations under default/--stream/-s/--slurpfile; query errors: 47 offending token kinds x 15 contexts x 4 continuations, as argument and -f file, checked for ParseError Offset/Token and the caret.",
 		Assume:         []string{"encoding/json's SyntaxError.Offset on the harness's own decode of the same bytes locates the offending byte; go-runewidth gives terminal widths"},
 		Run:            c17Run,
